@@ -353,6 +353,106 @@ def worker(args):
     return viol, stats, samples
 
 
+# ------------------------------------------------------------------------------------------------ whole client against a SCRAM-capable scripted server
+
+HOSTILE = ["wrong-signature", "signature-of-other-password", "empty-signature", "success-without-data", "error-instead", "early-success", "bad-nonce", "short-nonce", "zero-iterations", "no-salt",
+           "garbage-iterations", "extension-m"]
+MECHS = ["SCRAM-SHA-1", "SCRAM-SHA-256", "SCRAM-SHA-512", "SCRAM-SHA3-512"]
+
+
+def wire_session(mech, variant, sasl2, cpw, spw, iters, salt, same_read):
+    import wire
+    bind_ok = "<iq type='result' id='$ID'><bind xmlns='%s'><jid>%s</jid></bind></iq>" % (wire.NS_BIND, wire.JID)
+    if sasl2:
+        follow = wire.features() if same_read else ""
+        st = [wire.client(password=cpw, sasl2=True, userAgent=True), dict(op="connect"), wire.A("stream:stream"), wire.S(wire.hdr("s1") + wire.features(wire.f_sasl2(mechs=[mech], bind2=True))),
+              dict(op="scram", sasl2=True, variant=variant, password=spw, iters=iters, salt=salt, followUp=follow)]
+        if not same_read:
+            st.append(wire.S(wire.features(), optional=True))
+    else:
+        # (a hostile server may also put the next stream header and features into the same packet as <success/>)
+        follow = wire.features(wire.F_BIND) if same_read else ""
+        st = [wire.client(password=cpw), dict(op="connect"), wire.A("stream:stream"), wire.S(wire.hdr("s1") + wire.features(wire.f_mechs([mech]))),
+              dict(op="scram", variant=variant, password=spw, iters=iters, salt=salt, followUp=follow),
+              wire.A("stream:stream", optional=True, timeout=300)]
+        if not same_read:
+            st.append(wire.S(wire.hdr("s1b") + wire.features(wire.F_BIND), optional=True))
+        st += [wire.A("iq", child="bind", optional=True, timeout=300), wire.S(bind_ok, optional=True)]
+    st += [wire.A("iq", child="query", optional=True, timeout=300), wire.S("<iq type='result' id='$ID'><query xmlns='jabber:iq:roster'/></iq>", optional=True),
+           dict(op="wait_signal", name="connected", optional=True, timeout=300, fromSeq=0), dict(op="settle", quiet=10)]
+    return dict(steps=st, timeout=3000, stopOnStall=False)
+
+
+def wire_worker(args):
+    import wire
+    wid, n = args
+    r = vf.rng("c06-wire", wid)
+    binary = vf.build_harness("wire")
+    cases, metas = [], []
+    for i in range(n):
+        mech = r.choice(MECHS)
+        sasl2 = r.random() < 0.5
+        cpw = gen_cred(r)[1] if r.random() < 0.7 else "secret-pw-1234"
+        kind = r.choice(["honest"] * 3 + ["other-secret"] + ["hostile"] * 4)
+        variant, spw = "honest", cpw
+        if kind == "other-secret":
+            spw = cpw + "x" if r.random() < 0.5 else cpw[:-1] or "y"
+        elif kind == "hostile":
+            variant = r.choice(HOSTILE)
+        iters = r.choice([1, 2, 64, 500, 4096])
+        salt = r.randbytes(r.choice([1, 8, 16, 33])).hex()
+        # (a conforming server cannot send its next stream header before the client's restart: only SASL2, which has no restart, or a
+        #  hostile server puts what follows into the same packet as <success/>)
+        same_read = r.random() < 0.5 and (sasl2 or kind == "hostile")
+        cases.append(wire_session(mech, variant, sasl2, cpw, spw, iters, salt, same_read))
+        metas.append(dict(mechanism=mech, sasl2=sasl2, kind=kind, variant=variant, iterations=iters, salt=salt, follow_up_in_same_packet=same_read, client_password=cpw, server_password=spw))
+    outs, crashes = wire.run_cases(binary, cases)
+    viol, stats = [], {"wire_sessions": 0, "wire_honest_connected": 0, "wire_refused": 0, "wire_other_secret_refused": 0, "wire_by_variant": {}}
+    for rq, info in crashes:
+        viol.append(("wire crash " + vf.crash_sig(info), "sanitizer report / abnormal exit of a client during a SCRAM login", {"stderr": info["stderr"][-3000:]}))
+    for out, m in zip(outs, metas):
+        if not out:
+            continue
+        j = out["journal"]
+        sc = [e for e in j if e["ev"] == "scram"]
+        if not sc or sc[0].get("stage") == "no-auth":
+            continue
+        sc = sc[0]
+        stats["wire_sessions"] += 1
+        connected = [e for e in wire.signals(j, "connected")]
+        sent_after = [e for e in wire.srv_rx(j) if e["tag"] in ("iq", "message", "presence")]
+        w = dict(m, server_side=dict((k, sc.get(k)) for k in ("stage", "proof_ok", "nonce_echoed", "channel_binding_ok", "client_first", "client_final")),
+                 client_signals=[(e["name"], e.get("text")) for e in j if e["ev"] == "cli_sig" and e["name"] in ("connected", "disconnected", "errorOccurred")],
+                 stanzas_sent_after_authentication=[e.get("xml", "")[:200] for e in sent_after][:4])
+        tag = "sasl2" if m["sasl2"] else "sasl1"
+        if m["kind"] == "honest":
+            if sc.get("proof_ok") is not True:
+                viol.append(("wire proof-rejected-by-conforming-server %s %s" % (m["mechanism"], tag), "an independent server implementation holding the same password does not accept the client's proof", w))
+            elif not connected:
+                viol.append(("wire honest-login-fails %s %s" % (m["mechanism"], tag), "a correct SCRAM exchange did not end in a session", w))
+            else:
+                stats["wire_honest_connected"] += 1
+        elif m["kind"] == "other-secret":
+            if sc.get("proof_ok") is True:
+                viol.append(("wire proof-accepted-for-other-secret %s" % m["mechanism"], "a server holding a different password accepts the client's proof", w))
+            elif connected:
+                viol.append(("wire connected-after-failure %s" % tag, "the client reports a session after the server answered <failure/>", w))
+            else:
+                stats["wire_other_secret_refused"] += 1
+        else:
+            stats["wire_by_variant"][m["variant"]] = stats["wire_by_variant"].get(m["variant"], 0) + 1
+            if m["variant"] in ("extension-m", "short-nonce"):
+                # the server does prove knowledge of the password in these two; whether an 'm=' extension or a nonce that adds nothing to the
+                # client's must be refused is left open by the statement: recorded, not judged
+                stats["wire_not_judged_" + ("refused" if not connected else "accepted")] = stats.get("wire_not_judged_" + ("refused" if not connected else "accepted"), 0) + 1
+            elif connected or sent_after:
+                viol.append(("wire session-with-unproven-server %s %s%s" % (m["variant"], tag, " same-packet" if m["follow_up_in_same_packet"] else ""),
+                             "the client reports a session (or goes on sending stanzas) although the server never proved knowledge of the password", w))
+            else:
+                stats["wire_refused"] += 1
+    return viol, stats, []
+
+
 def merge(a, b):
     for k, v in b.items():
         if isinstance(v, dict):
@@ -368,6 +468,7 @@ def main(tier, replay=None):
     W = vf.NPROC
     with ProcessPoolExecutor(max_workers=W) as ex:
         res = list(ex.map(worker, [(w, total // W) for w in range(W)]))
+        res += list(ex.map(wire_worker, [(w, (800 if tier == "quick" else 40000) // W) for w in range(W)]))
     stats, samples = {}, []
     for viol, st, sm in res:
         for sig, what, w in viol:
@@ -380,6 +481,11 @@ def main(tier, replay=None):
                    "distinct_nontrivial counts individual client messages compared with the reference plus individual refusals checked",
            "observed": stats, "samples": samples[:4] or [{"note": "see observed.by_kind"}]}
     floors = {"honest>0": stats["honest_checked"] > 0, "rejections>0": stats["rejections_checked"] > 0,
-              "manager_sequences": stats["mgr_success_with_proof"] > 0 and stats["mgr_refused"] >= 0, "kinds>=20": len(stats["by_kind"]) >= 20}
+              "manager_sequences": stats["mgr_success_with_proof"] > 0 and stats["mgr_refused"] >= 0, "kinds>=20": len(stats["by_kind"]) >= 20,
+              "wire_honest": stats.get("wire_honest_connected", 0) >= 100, "wire_refused": stats.get("wire_refused", 0) >= 100, "wire_variants": len(stats.get("wire_by_variant", {})) >= 10}
+    cov["whole_client"] = ("real QXmppClient sessions (SASL and SASL2+bind2) against a scripted server that implements SCRAM-SHA-1/-256/-512/SHA3-512 itself with Qt's hash primitives: honest exchanges with random passwords, salts "
+                           "and iteration counts (the server verifies the client proof), a server holding another password, and 12 misbehaving variants (wrong / foreign / empty signature, success without data, e= instead of v=, "
+                           "success instead of a challenge, nonce not extending the client's, i=0, no salt, garbage iteration count, m= extension), each with the following features in a separate or in the same packet; "
+                           "oracle: session reported <=> the server proved knowledge of the password")
     V.finish(cov, "exploration", ["Python hashlib/hmac/pbkdf2/stringprep and our reading of RFC 5802/7677/2831/4616 and XEP-0484",
                                   "credentials restricted to strings on which SASLprep is the identity; DIGEST-MD5 credentials that RFC 2831 wants re-encoded as ISO 8859-1 are not judged (practice differs)"], floors)
